@@ -15,7 +15,8 @@ LEVEL = "exploration"
 RULE = ("Hypothesis cases: direct calls dykstra(P, x0, max_iter, tol) with n in 1..6, 1-4 sets from {ball, half-space, box, "
         "scaled simplex} built around a common point with a drawn margin, the last set a box in about half the cases, start "
         "points inside / near / far, tol in {1e-12, 1e-10 (default), 1e-8, 1e-6}, max_iter in {20, 100, 1000}. The routine is "
-        "called with counting projector proxies (sweeps and the stopping quantity reconstructed from them). Reference "
+        "called with counting projector proxies (sweeps and the stopping quantity of every sweep reconstructed from them; the "
+        "routine may stop early only when that quantity is below tol, and must stop at the first sweep where it is). Reference "
         "projection from the harness's own implementation of Dykstra's method run until the iterates stop moving. "
         "Non-trivial = the start point is outside the intersection and >= 2 sets are active at the reference projection. "
         "Distinct = SHA-1 of the case JSON.")
@@ -123,6 +124,14 @@ def run(case):
         return res
     st_["sweeps"].append(st_["cI"])
     by_rule = st_["cnt"] > 0 and st_["sweeps"][-1] < tol
+    # the routine may stop before max_iter sweeps only because its rule was met, and must stop as soon as it is met
+    if 0 < st_["cnt"] < max_iter and not st_["sweeps"][-1] < tol:
+        res.fail("C15.stopping_rule", "stopped after %d of %d sweeps although the stopping quantity %r is not below tol=%r"
+                 % (st_["cnt"], max_iter, st_["sweeps"][-1], tol))
+    early = [i for i, v in enumerate(st_["sweeps"][:-1]) if v < tol]
+    if early:
+        res.fail("C15.stopping_rule", "the stopping quantity was already below tol=%r after sweep %d (%r) but %d sweeps were performed"
+                 % (tol, early[0] + 1, st_["sweeps"][early[0]], st_["cnt"]))
     res.classes += ["start:" + case["start"], "stopped:" + ("rule" if by_rule else "cap")]
     if not np.array_equal(x0_in, x0):
         res.fail("C15.returns", "the caller's start point was modified")
